@@ -60,14 +60,29 @@ def outS : Out → String
 def verdictS : Spec.Verdict → String
   | .accept => "accept" | .tvm => "tvm" | .tvmInUnion => "tvmInUnion" | .reject => "reject" | .unclaimed => "unclaimed"
 
+/-- a step with the calls its body makes: {…step…, "kids": [step…]} (absent: none).  The checks before the body are all but
+    the last one (the check of the result). -/
+partial def treeOf (insts : Array Json) (j : Json) : Tree :=
+  let c := callOf insts j
+  .node c (c.checks.length - 1) ((jL (jF j "kids")).map (treeOf insts))
+
+def optOutJ : Option Out → Json
+  | some o => jStr (outS o)
+  | none => Json.null
+
 /-- case: {"env": …, "insts": [{"k": "generic", "p": [tv…], "g": [[tv, ann]…]} | {"k": "reset"} | {"k": "direct"} | {"k": "plain"}],
-           "steps": [{"i": inst, "f": function id, "init": bool, "scan": bool, "checks": [[ann, val]…]}]} -/
+           "steps": [{"i": inst, "f": function id, "init": bool, "scan": bool, "checks": [[ann, val]…], "kids": [step…]}]} -/
 def handle (c : Json) : Json :=
   let env := envOf (jF c "env")
   let insts := jA (jF c "insts")
-  let h := (jL (jF c "steps")).map (callOf insts)
-  mkObj [("model", jArr ((runHistory env h Stores.empty).map fun o => jStr (outS o))),
+  let ts := (jL (jF c "steps")).map (treeOf insts)
+  let h := ts.map (·.call)
+  let r := runForest env ts Stores.empty
+  mkObj [("model", jArr (r.map fun o => jStr (outS o.1))),
+         ("nested", jArr (r.map fun o => jArr (o.2.map optOutJ))),
          ("spec", jArr ((Spec.specHistory env h).map fun v => jStr (verdictS v))),
-         ("regions", jArr ((Spec.regionsHistory env [] h).map fun rs => jArr (rs.map jStr)))]
+         ("nspec", jArr (ts.map fun t => jArr ((Spec.specBelow env t).map fun v => jStr (verdictS v)))),
+         ("regions", jArr ((Spec.regionsHistory env [] h).map fun rs => jArr (rs.map jStr))),
+         ("nregions", jArr (ts.map fun t => jArr ((Spec.regionsBelow env [] t).map fun rs => jArr (rs.map jStr))))]
 
 end PedVerif.Drv.TypeVars
